@@ -16,6 +16,9 @@ CLAIMED = {
  "C15": ("exploration",
    "API family: every public function is called with strings from a hostile-argument grammar (empty, 63/64/255-byte labels, multi-byte UTF-8 at every boundary, dots / backslashes, missing or doubled suffixes, existing conflict suffixes up to u32::MAX) and extreme numbers (timeouts to u64::MAX, ports, TTL options), followed by enough virtual time for probing, announcing, renames (a conflicter peer contests names), follow-up queries and clock jumps; packet family: Mallory packets and targeted hostile records (labels ending in backslash, dots inside labels, root targets, over-long merged labels) are delivered to a daemon with active browses, resolvers and registrations. Oracle: no caller panic (catch_unwind at the API seam), daemon thread alive and not hung, and a fresh browse + answer afterwards is still served (follow-up rule).",
    "7.15", "Sampling; arithmetic overflow is made observable by building the simulator with overflow checks on."),
+ "C02": ("exploration",
+   "Every packet the real daemon emits in two stress families is judged: 'resp' (1-6, in overflow worlds 90-170, services registered under a hostile label alphabet - dots, backslashes, trailing backslash, multi-byte UTF-8, 63-byte labels, case variants, shared suffixes, TXT up to several KB - and asked PTR / meta / ANY / SRV / TXT / A / AAAA / multi-question / legacy-unicast questions) and 'ka' (a browse whose 1-8 / 150-420 cached instances, TTL up to u32::MAX, come back as known answers). Rules: <= 8972 bytes and read completely by an independent strict RFC 1035 parser; every record equals label for label and byte for byte a record of the registered services (resp) or a received record (ka); a question with registered answers / a scheduled query is never silently dropped and a PTR is left out only when the packet has no room; the crate's decoder (facade) reads the same content. A third family drives the encoder alone through the guarded facade (seeded messages in all sections, sizes swept across the packet limit byte by byte, roll-back shapes): that part is input generation on a pure function, included because the encoder's multi-packet (TC) path is unreachable from the daemon.",
+   "7.2", "'Records that were added' is not observable on the wire: the simulated families compare against models of what the daemon should add. NSEC encoding (not in the property's quantifier, never used by the daemon) is not judged."),
  "C03": ("exploration",
    "Seeded search over announcement / update / goodbye / silence histories delivered with loss, duplication, delays up to 15 s, wake latency and spurious wake-ups; every ServiceResolved event is judged against a receive model built from the packets as delivered (TTL from last arrival, TTL 0 = 1 s, cache-flush one-second rule, per-interface address tags). The model over-approximates what may be live, so a flagged event uses a record no delivery can justify. Sampling over histories; TTLs 2 s..75 min reached because virtual hours cost milliseconds.",
    "7.3", "Trusts the independent codec and the receive model's reading of the statement; 'maybe accepted' packets (answers to someone else's browse) never raise an alarm."),
